@@ -10,6 +10,7 @@ Monitors on the real writers (LuaFormatterWriter via Lua.to_lines, and `p8tool l
  (c) degenerate programs: empty, whitespace only, comment only, no final newline.
 """
 import os
+from .. import ambient
 import shutil
 import tempfile
 
@@ -147,7 +148,7 @@ def run_cli(ctx, src, width, case, cli_dir, scopes, expect_ok):
         orig = rc.write_p8(regions, src, version=8)
         with open(p1, 'wb') as fh:
             fh.write(orig)
-        argv = ['-q', 'luafmt', '--indentwidth', str(width)] + (['--overwrite'] if overwrite else []) + [p1]
+        argv = [ambient.vflag(), 'luafmt', '--indentwidth', str(width)] + (['--overwrite'] if overwrite else []) + [p1]
         err = None
         try:
             rcode = tool.main(argv)
